@@ -406,6 +406,8 @@ fn sw_random_curve_point<P: sw::SWCurveConfig>(g: &mut G<'_>) -> sw::Affine<P> {
         let x: P::BaseField = P::BaseField::rand(g.rng);
         let rhs = x.square() * x + P::COEFF_A * x + P::COEFF_B;
         if let Some(y) = rhs.sqrt() {
+            // the workload must not inherit a wrong root from the library
+            assert!(y.square() == rhs, "library sqrt returned a value whose square is not the input");
             let y = if g.rng.chance(1, 2) { y } else { -y };
             return sw::Affine::<P>::new_unchecked(x, y);
         }
@@ -862,6 +864,7 @@ fn te_random_curve_point<P: te::TECurveConfig>(g: &mut G<'_>) -> te::Affine<P> {
         let den = P::COEFF_A - P::COEFF_D * y2;
         let Some(di) = den.inverse() else { continue };
         if let Some(x) = ((P::BaseField::ONE - y2) * di).sqrt() {
+            assert!(x.square() == (P::BaseField::ONE - y2) * di, "library sqrt returned a value whose square is not the input");
             let x = if g.rng.chance(1, 2) { x } else { -x };
             return te::Affine::<P>::new_unchecked(x, y);
         }
